@@ -68,12 +68,12 @@ def gen(seed):
     # artefacts of the generated world, not discovery behaviour: draw again
     for attempt in range(30):
         spec = gen1(seed, attempt)
-        want, modname, never = model(spec['tree'], spec['opt'])
+        want, modname, never = model(spec['tree'], spec['opt'], spec.get('ext'))
         allf = dict(modname)
         names = list(allf.values())
         clash = len(names) != len(set(names))
         for rel, node in fssim.walk_tree(spec['tree']):
-            dn = {d['name'] for d in node['dirs']}
+            dn = {d['name'] for d in node['dirs']} | set(node.get('links') or {})
             if any(f.endswith('.py') and f[:-3] in dn for f in node['files']):
                 clash = True
         # sys.path shadowing between overlapping roots: the first component of a module name
@@ -87,8 +87,9 @@ def gen(seed):
                 if r == owner:
                     continue
                 node = nodes[r]
-                if first + '.py' in node['files'] or \
-                        any(d['name'] == first for d in node['dirs']):
+                if any(first + e in node['files'] for e in ('.py', '.pyc', '.pyo')) or \
+                        any(d['name'] == first for d in node['dirs']) or \
+                        first in (node.get('links') or {}):
                     clash = True
         if not clash:
             return spec
@@ -105,6 +106,23 @@ def gen1(seed, attempt):
     tree = {'name': 'root', 'dirs': tops, 'files': {}}
     if rng.random() < 0.3:
         tree['files']['tests.py'] = TEST_SRC
+    ext = None
+    if rng.random() < 0.25:
+        # directories outside every search path, reached through symbolic links only
+        ext = {'name': 'ext', 'files': {}, 'dirs': [
+            gen_dir(rng, 'x%d' % i, 2, [6], uniq) for i in range(rng.randint(1, 2))]}
+        hosts = [node for rel, node in fssim.walk_tree(tree)
+                 if rel != 'root' and '__init__.py' in node['files']]
+        for k, target in enumerate(ext['dirs']):
+            if not hosts:
+                break
+            host = rng.choice(hosts)
+            name = rng.choice(['lnk%d' % k, 'linked%d' % k, 'ln-k', 'node_modules',
+                               '__pycache__', '.git', 'skipme', '1lnk', 'tests'])
+            if name in [d['name'] for d in host['dirs']] or name in (host.get('links') or {}) \
+                    or name + '.py' in host['files']:
+                continue
+            host.setdefault('links', {})[name] = 'ext/' + target['name']
     roots = ['root']
     nested = [rel for rel, node in fssim.walk_tree(tree)
               if rel != 'root' and all(IDENT(x) and x not in IGNORE_FOLDERS
@@ -134,17 +152,22 @@ def gen1(seed, attempt):
         cands = [t['name'] for t in tops if '__init__.py' in t['files']]
         if cands:
             opt['s'] = [rng.choice(cands)]
-    return {'property': ID, 'seed': seed, 'tree': tree, 'opt': opt,
+    spec = {'property': ID, 'seed': seed, 'tree': tree, 'opt': opt,
             'world': {'layers': [], 'modules': []}, 'plan': [], 'knobs': {},
             'sched': {'prng': seed}}
+    if ext is not None:
+        spec['ext'] = ext
+    return spec
 
 
-def model(tree, opt):
+def model(tree, opt, ext=None):
     """(ordered list of test files (relative), {file: module name}, excluded-by-filter files)."""
     tp = re.compile(opt.get('tests_pattern', '^tests$')).search
     fp = re.compile(opt.get('test_file_pattern', '^test')).search
     ignore = DEFAULT_IGNORE | set(opt.get('ignore_dir') or [])
     nodes = dict(fssim.walk_tree(tree))
+    if ext is not None:
+        nodes.update(fssim.walk_tree(ext))
     roots = opt['roots']
     found = []
     seen = set()
@@ -164,8 +187,8 @@ def model(tree, opt):
             if f not in seen:
                 seen.add(f)
                 found.append(f)
-        for d in sorted(node['dirs'], key=lambda d: d['name']):
-            dn = d['name']
+        # (a symlinked directory is searched like a real one, under the link's name)
+        for dn, d, is_link in sorted(fssim.children(node, nodes), key=lambda c: c[0]):
             if dn in ignore or dn in IGNORE_FOLDERS or not IDENT(dn):
                 continue
             visit(rel + '/' + dn, d)
@@ -209,7 +232,10 @@ def run(spec, ctx):
     opt = spec['opt']
     top = ctx.scratch
     rng = random.Random(spec['seed'] * 131 + 5)
+    if spec.get('ext') is not None:
+        fssim.materialise(spec['ext'], top, order_rng=rng)
     fssim.materialise(spec['tree'], top, order_rng=rng)
+    has_links = any(node.get('links') for _, node in fssim.walk_tree(spec['tree']))
     args = []
     for r in opt['roots']:
         args += ['--path', os.path.join(top, r)]
@@ -224,7 +250,7 @@ def run(spec, ctx):
     for d in opt.get('ignore_dir') or []:
         args += ['--ignore_dir', d]
     args += ['--list-tests', '-k']
-    want, modname, never = model(spec['tree'], opt)
+    want, modname, never = model(spec['tree'], opt, spec.get('ext'))
     viols = []
     listings = []
     results = []
@@ -258,8 +284,8 @@ def run(spec, ctx):
                 mm = re.match(r'test \((.*)\.T\.test\)$', t)
                 if mm:
                     listed.append(mm.group(1))
-        problems = C.parse_name_block(res.text, 'Test-modules with import problems:')
-        problems = [p.strip() for p in problems]
+        problems = [p.strip() for p in C.parse_name_block(
+            res.text, 'Test-modules with import problems:', indent='  ')]
         listings.append(listed)
         imported = {}
         for ev in res.trace:
@@ -284,7 +310,9 @@ def run(spec, ctx):
                 viols.append(C.viol('C14/filtered-module-imported',
                                     '%s is excluded by -m/-s but was imported' % f))
                 break
-        if not problems and listed != want_mods:
+        # (where a symlinked directory comes in the walk is not part of the statement: with
+        # links only independence from the enumeration order is checked, below)
+        if not problems and listed != want_mods and not has_links:
             viols.append(C.viol('C14/order-differs-from-sorted-walk',
                                 'listed %r, sorted walk gives %r' % (listed, want_mods)))
             break
